@@ -157,7 +157,12 @@ func roundIntrinsic(rm string) intrinsicFn {
 }
 
 func (t *FnTrans) float64bits(v Val) Val {
+	// one bit pattern per float term (the same term denotes the same run-time value)
+	if b, ok := t.f64bitsCache[v.S]; ok {
+		return scalar(types.Typ[types.Uint64], b)
+	}
 	b := t.declare(t.fresh("f64bits"), "(_ BitVec 64)")
+	t.f64bitsCache[v.S] = b
 	t.assume("true", eq(sx("(_ to_fp 11 53)", b), v.S), "math.Float64bits: to_fp(bits) == f (NaN payload unconstrained)")
 	return scalar(types.Typ[types.Uint64], b)
 }
@@ -722,6 +727,18 @@ func (t *FnTrans) contractCall(x *ssa.Call, callee *ssa.Function, con *Contract,
 func (t *FnTrans) havocModifies(item string, pre *Env, st *HeapState, reach string) {
 	if item == "all" {
 		t.replaceState(st, t.havocAll(st))
+		return
+	}
+	if strings.HasPrefix(item, "ghostseq(") {
+		// every element of a ghost sequence may change
+		gname := strings.Trim(strings.TrimSuffix(strings.TrimPrefix(item, "ghostseq("), ")"), "\" ")
+		gt := t.W.ghostType(gname)
+		srt := arraySort("Int", arraySort(t.mode.idxSort(), t.mode.scalarSort(gt)))
+		comp := "GA." + gname
+		t.heapGet(st, comp, srt)
+		delete(st.cur, comp)
+		t.epochs++
+		st.pending[comp] = t.epochs
 		return
 	}
 	if item == "allbytes" {
